@@ -14,7 +14,8 @@ from vf.bounded import Tally
 from vf.pyvc import extract
 
 MOD = "debian.deb822"
-TOK = ["aa", "b3f", "x-y_z", "é", "0", "main/a.deb", "12:30"]
+from vf import tricky
+TOK = ["aa", "b3f", "x-y_z", "é", "0", "main/a.deb", "12:30"] + tricky.WORDS
 SIZES = ["1", "22", "00042", "977", "12k", "1234567890123456789"]
 
 
